@@ -5,6 +5,9 @@
    Transport (send_request / read_response / request_response / abort) is in BlockDl.v.
    Definitions only.
 
+   Second caller (readinto with small buffers, then read()): [ul_readinto], [ul_read_rest], [ul_transfer_ri];
+   the attribute _pending (left-over of a segment that did not fit) is threaded beside the stream record.
+
    Not modelled (wall clock): the `while time.time() < end_time` guard of _retransmit.  With a peer
    that answers synchronously the loop ends by a matching segment or by read_response's time-out,
    never by the guard; the branch behind the guard (abort 0x05040000) is therefore absent. *)
@@ -168,6 +171,49 @@ Section Client.
   Definition ul_close (u : ul) (w : net) : net :=
     if u_done u && negb (u_error u) then send_request srv w ul_end_request else w.
 
+  (* ---- readinto(b) with len(b) = k, and the _pending prologue of read() ----
+     readinto: if not self._pending: self._pending = self.read(7); hand out min(k, len) bytes, keep the rest.
+     read(n >= 0): a non-empty _pending is returned first (before the _done test).
+     read(-1):     _pending + readall()   (readall = read(n) until b""). *)
+  Definition ul_readinto (k : Z) (u : ul) (pend : list Z) (w : net) : RU (list Z) * list Z :=
+    match pend with
+    | [] =>
+        match ul_read u w with
+        | (Ok d, u1, w1) => ((Ok (firstn (Z.to_nat k) d), u1, w1), skipn (Z.to_nat k) d)
+        | other => (other, [])
+        end
+    | _ => ((Ok (firstn (Z.to_nat k) pend), u, w), skipn (Z.to_nat k) pend)
+    end.
+
+  Fixpoint ul_readinto_all (ks : list Z) (u : ul) (pend : list Z) (w : net) (acc : list Z) : RU (list Z) * list Z :=
+    match ks with
+    | [] => ((Ok acc, u, w), pend)
+    | k :: r =>
+        match ul_readinto k u pend w with
+        | ((Ok d, u1, w1), pend1) => ul_readinto_all r u1 pend1 w1 (acc ++ d)
+        | other => other
+        end
+    end.
+
+  Definition ul_read_rest (fuel : nat) (u : ul) (pend : list Z) (w : net) (acc : list Z) : RU (list Z) :=
+    readall fuel u w (acc ++ pend).
+
+  (* with client.open(index, sub, "rb", buffering=0, block_transfer=True, ...) as f:
+         for k in ks: f.readinto(bytearray(k))      (the pieces are collected)
+         rest = f.read()                                                        *)
+  Definition ul_transfer_ri (fuel : nat) (w : net) (index sub blksize : Z) (crc : bool) (ks : list Z) : RU (list Z) :=
+    match ul_init w index sub blksize crc with
+    | (Err k, w1) => (Err k, mkul false 0 0 None 0 false None false blksize, w1)
+    | (Abort a, w1) => (Abort a, mkul false 0 0 None 0 false None false blksize, w1)
+    | (Ok u, w1) =>
+        match ul_readinto_all ks u [] w1 [] with
+        | ((Ok acc, u2, w2), pend) =>
+            let '(r, u3, w3) := ul_read_rest fuel u2 pend w2 acc in
+            (r, u3, ul_close u3 w3)
+        | ((Err k, u2, w2), _) => (Err k, u2, ul_close u2 w2)
+        | ((Abort a, u2, w2), _) => (Abort a, u2, ul_close u2 w2)
+        end
+    end.
   (* with client.open(index, sub, "rb", block_transfer=True, request_crc_support=crc) as f: data = f.read() *)
   Definition ul_transfer (fuel : nat) (w : net) (index sub blksize : Z) (crc : bool) : RU (list Z) :=
     match ul_init w index sub blksize crc with
@@ -183,20 +229,23 @@ End Client.
    Runner for the correspondence check
    ===================================================================================== *)
 Inductive ul_case :=
-| CUl (full : bool) (index sub blksize : Z) (crc_client crc_server : bool)
-      (faults : list fault) (zeros seed n : Z) (lit : list Z)
+| CUl (full : bool) (index sub blksize : Z) (crc_client crc_server size_ind : bool)
+      (faults : list fault) (zeros seed n : Z) (lit : list Z) (ks : list Z)   (* ks: readinto buffer sizes, [] = f.read() only *)
 | CUCrc (init : Z) (data : list Z).
 
 Definition run_blockul (c : ul_case) : val :=
   match c with
-  | CUl full index sub blksize crc_client crc_server faults zeros seed n lit =>
+  | CUl full index sub blksize crc_client crc_server size_ind faults zeros seed n lit ks =>
       let value := payload_of zeros seed n lit in
       let srv := faulty ul_srv in
-      let w0 := mknet (fs_init (us_init value crc_server) faults) [] [] in
+      let w0 := mknet (fs_init (us_init value crc_server size_ind) faults) [] [] in
       (* every read consumes a frame or ends the transfer; the peer emits at most a few frames
          per value byte plus a few per fault *)
       let fuel := (4 * length value + 64 * length faults + 64)%nat in
-      let '(r, u, w) := ul_transfer srv fuel w0 index sub blksize crc_client in
+      let '(r, u, w) := match ks with
+                        | [] => ul_transfer srv fuel w0 index sub blksize crc_client
+                        | _ => ul_transfer_ri srv fuel w0 index sub blksize crc_client ks
+                        end in
       let s := f_inner (n_srv w) in
       VL [res_val (data_val full) r;
           VBool (us_ended s);
